@@ -230,11 +230,11 @@ pub fn def() -> PropertyDef {
         rule: "stream: 64-byte seeds (all-zero, all-ones, single-bit, single-zero-bit, random) x chunk lists of 1..9000-byte reads crossing several 4096-byte refills x interleaved next_u32 / next_u64 / fill_bytes sequences, plus 1 MiB (thorough 16 MiB) per seed kind for the no-repetition clause; metamorphic oracles: chunked reads = one bulk read = byte-at-a-time reads, same seed + same calls = same output, one-bit-different seeds differ, no repeated aligned 32-byte window, consecutive blocks differ (agreement with an independent blake3 XOF recomputation is recorded as information only). samples: ternary / error / uniform samplers on 1..6 primes of 2..60 bits (incl. primes below 43): one small signed value per coefficient consistent across components, |e| <= 21, uniform below each modulus; distribution tests on 2^20 draws at p = 1e-9 with confirmation under a second seed. freshness (hook H2 removed): histories of 2..50 encryptions / key generations: all masks and stored seeds pairwise distinct; identical explicit generator state gives identical masks; seeded objects expand identically twice and in an independently built context. non-trivial: >= 2 refills with a non-aligned boundary / >= 2 primes / history >= 10.",
         assumptions: vec!["statistical thresholds: a false alarm needs p < 1e-9 and p < 1e-6 under a second seed; the generators are seeded from the case, so the verdict is deterministic", "the exact PRF is not asserted (information only)"],
         subs: vec![
-            Sub::prop("stream_chunking", 20_000, 300_000, 0.2, |_| stream_case(), stream_oracle),
+            Sub::prop("stream_chunking", 100_000, 600_000, 0.2, |_| stream_case(), stream_oracle),
             Sub::enumerate("long_streams", long_stream_cases, stream_oracle),
-            Sub::prop("sampler_wellformedness", 40_000, 600_000, 0.3, sample_case, sample_oracle),
+            Sub::prop("sampler_wellformedness", 200_000, 1_200_000, 0.3, sample_case, sample_oracle),
             Sub::enumerate("sampler_distributions", |t| (0..t.pick(8u8, 64u8)).map(|s| DistCase { seed: s }).collect(), dist_oracle),
-            Sub::prop("freshness_histories", 6_000, 100_000, 0.3, fresh_case, fresh_oracle),
+            Sub::prop("freshness_histories", 30_000, 200_000, 0.3, fresh_case, fresh_oracle),
         ],
     }
 }
